@@ -1,11 +1,11 @@
 // C11 implementation driver: the REAL ResourceManager / choke_group / choke_queue / group_entry /
 // choke_status / DownloadMain(+DownloadInfo counters) and REAL PeerConnectionBase objects (a trivial
-// concrete subclass, never connected: no socket, no poll) so that the real
-// receive_upload_choke / receive_download_choke / set_upload_snubbed / should_connection_unchoke run.
-// Same case protocol as ocaml/c11_driver.ml.
+// concrete subclass) opened with the real PeerConnectionBase::initialize() on a socketpair descriptor
+// registered with the real poll / socket manager and closed with the real PeerConnectionBase::cleanup(),
+// so that the real receive_upload_choke / receive_download_choke / set_upload_snubbed /
+// should_connection_unchoke / cleanup run.  Same case protocol as ocaml/c11_driver.ml.
 //
-// Replicated here rather than called (needs a socket / message parser):
-//   - the four counter lines of PeerConnectionBase::cleanup()            (op X)
+// Replicated here rather than called (needs the message parser):
 //   - what PeerConnection<>::read_message does on CHOKE/UNCHOKE/INTERESTED/NOT_INTERESTED around
 //     the choke_queue calls: m_down_unchoked / m_down_interested assignments  (ops Q/U/K)
 //   - "m_currently*Unchoked += cycle(q)" of ResourceManager::receive_tick for the direct CY op
@@ -17,8 +17,15 @@
 #include <map>
 
 #include "download/download_main.h"
+#include <sys/socket.h>
+#include <unistd.h>
 #include "net/throttle_list.h"
+#include "protocol/encryption_info.h"
+#include "protocol/extensions.h"
 #include "protocol/peer_connection_base.h"
+#include "torrent/bitfield.h"
+#include "torrent/data/file_list.h"
+#include "torrent/runtime/socket_manager.h"
 #include "thread_main.h"
 #include "torrent/download/choke_group.h"
 #include "torrent/download/choke_queue.h"
@@ -62,6 +69,14 @@ public:
   void event_write() override {}
   bool alive = true;
   int  tor = 0;
+  int  remote_fd = -1;
+  torrent::ProtocolExtension ext = torrent::ProtocolExtension::make_default();
+  // the real PeerConnectionBase::cleanup()
+  void real_close() {
+    cleanup();
+    if (remote_fd >= 0) ::close(remote_fd);
+    remote_fd = -1;
+  }
 };
 
 struct World {
@@ -130,18 +145,20 @@ static HConn* new_conn(World& w, int t) {
   sa.sin_port = htons(6881);
   sa.sin_addr.s_addr = htonl(0x0a000001 + w.conns.size());
   pc->tor = t;
-  pc->m_download = d;
-  pc->m_peerInfo = new torrent::PeerInfo(reinterpret_cast<sockaddr*>(&sa));
-  pc->m_peer_chunks.set_peer_info(pc->m_peerInfo);
-  // as PeerConnectionBase::initialize does
-  pc->m_up_choke.set_entry(d->up_group_entry());
-  pc->m_down_choke.set_entry(d->down_group_entry());
-  pc->m_up->set_throttle(w.tl_up);
-  pc->m_down->set_throttle(w.tl_down);
-  pc->m_peer_chunks.upload_throttle()->set_list_iterator(w.tl_up->end());
-  pc->m_peer_chunks.download_throttle()->set_list_iterator(w.tl_down->end());
-  // never IDLE => write_insert_poll_safe() does not touch the (absent) poll
-  pc->m_up->set_state(torrent::ProtocolBase::INTERNAL_ERROR);
+  auto pi = new torrent::PeerInfo(reinterpret_cast<sockaddr*>(&sa));
+  int fds[2];
+  if (socketpair(AF_UNIX, SOCK_STREAM, 0, fds) != 0) throw std::runtime_error("socketpair");
+  pc->remote_fd = fds[1];
+  torrent::Bitfield bf;
+  bf.set_size_bits(d->file_list()->size_chunks());
+  bf.allocate();
+  bf.unset_all();
+  torrent::EncryptionInfo enc;
+  // the real PeerConnectionBase::initialize(): sets the choke_status entries, throttles, poll registration
+  torrent::runtime::socket_manager()->open_event_or_throw(pc, torrent::runtime::category_generic, [&] {
+    pc->initialize(d, pi, fds[0], &bf, &enc, &pc->ext);
+  });
+  if (!pc->is_open() || pc->m_download != d) throw std::runtime_error("initialize");
   return pc;
 }
 
@@ -187,14 +204,10 @@ static void apply_op(World& w, const std::vector<std::string>& t) {
     else queue_of_conn(pc, false)->set_not_snubbed(pc, &pc->m_down_choke);
   } else if (k == "X") {
     auto pc = conn(1); if (!pc) return;
-    auto d = pc->m_download;
-    // PeerConnectionBase::cleanup(), choke part. The model (like two independent queues) does the
-    // whole upload side first; the statements commute.
-    d->info()->set_upload_unchoked(d->info()->upload_unchoked() - pc->m_up_choke.unchoked());
-    d->info()->set_download_unchoked(d->info()->download_unchoked() - pc->m_down_choke.unchoked());
-    d->choke_group()->up_queue()->disconnected(pc, &pc->m_up_choke);
-    d->choke_group()->down_queue()->disconnected(pc, &pc->m_down_choke);
+    // the real PeerConnectionBase::cleanup() (the model does the whole upload side first; the
+    // counter statements of the two sides commute)
     pc->alive = false;
+    pc->real_close();
   } else if (k == "TM" || k == "Tm") {
     size_t x = std::stoul(t.at(2)); if (x >= nt) return;
     auto e = is_up(1) ? w.tors[x]->up_group_entry() : w.tors[x]->down_group_entry();
@@ -261,10 +274,21 @@ static std::string run_case(const std::string& line) {
   w.rm = new torrent::ResourceManager();
   w.tl_up = new torrent::ThrottleList();
   w.tl_down = new torrent::ThrottleList();
+  struct Closer {
+    World& w;
+    ~Closer() {
+      // release descriptors / poll registrations of connections still open at the end of the case
+      for (auto pc : w.conns)
+        if (pc->is_open()) { try { pc->real_close(); } catch (...) { if (pc->remote_fd >= 0) ::close(pc->remote_fd); } }
+    }
+  } closer{w};
   int nt = std::stoi(hdr[0]), ng = std::stoi(hdr[1]);
   for (int g = 0; g < ng; g++) w.rm->push_group("g" + std::to_string(g));
   for (int t = 0; t < nt; t++) {
     auto d = new torrent::DownloadMain();
+    d->file_list()->initialize(16 * 16384, 16384);
+    d->set_upload_throttle(w.tl_up);
+    d->set_download_throttle(w.tl_down);
     w.tors.push_back(d);
     w.rm->insert(d, 1);
   }
